@@ -61,7 +61,7 @@ class PythonCode:
 class ArgumentList:
     """parses a fragment of code as a comma-separated list of expressions"""
 
-    def __init__(self, code, **exception_kwargs):
+    def __init__(self, code, lineno_offset=0, **exception_kwargs):
         self.codeargs = []
         self.args = []
         self.declared_identifiers = set()
@@ -71,7 +71,12 @@ class ArgumentList:
                 # if theres text and no trailing comma, insure its parsed
                 # as a tuple by adding a trailing comma
                 code += ","
-            expr = pyparser.parse(code, "exec", **exception_kwargs)
+            expr = pyparser.parse(
+                code,
+                "exec",
+                lineno_offset=lineno_offset,
+                **exception_kwargs,
+            )
         else:
             expr = code
 
